@@ -359,6 +359,11 @@ def run_shard(sh):
                         check_expval({"kind": "expval", "word": word, "noise": assign, "obs": obs, "n_shots": shots}, acc)
     if sh["part"] == 0:
         acc.sample({"kind": sh["kind"], "word": W[14], "noise": {"H": specs()[10]}})
+        if sh["kind"] == "expval":
+            acc.caps.append(f"expectation-value trees explore every {7 if tier == 'quick' else 3}th (circuit, noise model) pair of the product on <= 2 qubits; "
+                            "the density-matrix comparison covers the whole product")
+        elif tier == "quick":
+            acc.caps.append("quick tier: two-name circuits use 8 of the 17 channel specifications per gate name (thorough: all 17)")
     return acc
 
 
